@@ -1012,6 +1012,19 @@ class NF:
         truthiness test `x`;  `x is None` its negation"""
         if c[0] == "op" and c[1] in ("And", "Or", "Not", "not") and all(isinstance(x, tuple) for x in c[2]):
             return ("op", c[1], tuple(self._optional_truth(x, env) for x in c[2]))
+        if c[0] == "op" and c[1] in ("cmp:IsNot", "cmp:Is") and len(c[2]) == 2 and c[2][1] == ("const", None):
+            x = c[2][0]
+            pos = None
+            if x[0] in ("ctor", "list", "map", "comp", "enc"):
+                pos = ("const", True)                       # a built value is never None
+            elif x[0] == "ite" and x[3] == ("const", None) and x[2][0] in ("ctor", "list", "map", "comp", "enc"):
+                pos = x[1]                                  # (A if c else None) is not None  <=>  c
+            elif x[0] == "ite" and x[2] == ("const", None) and x[3][0] in ("ctor", "list", "map", "comp", "enc"):
+                pos = ("op", "Not", (x[1],))
+            if pos is not None:
+                if c[1] == "cmp:IsNot":
+                    return pos
+                return ("const", not pos[1]) if pos[0] == "const" else ("op", "Not", (pos,))
         if c[0] == "op" and c[1] in ("cmp:IsNot", "cmp:Is") and len(c[2]) == 2 and c[2][1] == ("const", None) and c[2][0][0] in ("attr", "sym"):
             try:
                 ty = self.type_of(c[2][0], env)
